@@ -167,8 +167,12 @@ func (q *quorumAckTracker) AdvanceHeadOffset(headOffset int64) {
 
 	if q.requiredAcks == 0 {
 		q.notifyCommitOffsetAdvanced(headOffset)
-	} else {
+	} else if e, found := q.tracker[headOffset]; !found {
 		q.tracker[headOffset] = &util.BitSet{}
+	} else if uint32(e.Count()) >= q.requiredAcks {
+		// The followers have acked this entry before the head offset was advanced
+		delete(q.tracker, headOffset)
+		q.notifyCommitOffsetAdvanced(headOffset)
 	}
 }
 
@@ -232,6 +236,11 @@ func (q *quorumAckTracker) WaitForCommitOffsetAsync(_ context.Context, offset in
 }
 
 func (q *quorumAckTracker) notifyCommitOffsetAdvanced(commitOffset int64) {
+	if commitOffset <= q.commitOffset.Load() {
+		// The commit offset never moves backward
+		return
+	}
+
 	q.commitOffset.Store(commitOffset)
 
 	for _, r := range q.waitingRequests {
@@ -295,14 +304,21 @@ func (c *cursorAcker) ack(offset int64) {
 
 	e, found := q.tracker[offset]
 	if !found {
-		// The entry has already previously reached the quorum.
-		// There's nothing more left to do here.
-		return
+		if offset <= q.headOffset.Load() {
+			// The entry has already previously reached the quorum.
+			// There's nothing more left to do here.
+			return
+		}
+
+		// A follower can receive (and ack) an entry as soon as it is synced on the
+		// leader WAL, before the head offset is advanced. Keep track of the ack.
+		e = &util.BitSet{}
+		q.tracker[offset] = e
 	}
 
 	// Mark that this follower has acked the entry
 	e.Set(c.cursorIdx)
-	if uint32(e.Count()) == q.requiredAcks {
+	if uint32(e.Count()) == q.requiredAcks && offset <= q.headOffset.Load() {
 		delete(q.tracker, offset)
 
 		// Advance the commit offset
